@@ -13,6 +13,8 @@
    only while the run has lasted less than its grace period -- the property's proviso. *)
 From Coq Require Import ZArith List Bool Arith.
 Require Import DS.Model.GCRaceBase DS.Gen.GenGCRace DS.Model.GCRace DS.Proofs.GCRaceProofs.
+Require Import DS.Gen.GenTxMarkers DS.Model.TxMarkers DS.Proofs.TxMarkersProofs.
+Require Import DS.Model.GCRaceDrop DS.Proofs.GCRaceDropProofs.
 Import ListNotations.
 Open Scope Z_scope.
 
@@ -54,6 +56,49 @@ Theorem C06_unmarked_adoption_refuted :
     /\ g_swept w 0%nat = false /\ g_ref w 0%nat = true /\ g_present w 0%nat = false.
 Proof. exact unmarked_adoption_refuted. Qed.
 Print Assumptions C06_unmarked_adoption_refuted.
+
+(* The TRANSACTION's side of the contract C06_gc_race_safe rests on (a file is published only while its marker is in
+   place): the marker ledger of one transaction (Model/TxMarkers.v) over the kernels REGENERATED from transaction.py
+   (Gen/GenTxMarkers.v: append_data registers before it writes, append_files protects before it queues, an attempt
+   registers its manifests, and nothing reachable from the RETRY arm of commit's conflict handler drops markers).  In
+   every history -- any number of written files and of ADOPTED pre-built files (of any age), any number of commit
+   attempts that LOSE the OCC race and are retried, refused adoptions, rollback -- the transaction holds a marker for
+   every file it is going to publish at every step up to and including the pointer flip (`x_bare` collects every file
+   that was ever payload without a marker: it stays empty).  So a collection run scheduled at ANY step of a retry
+   finds the markers of the adopted and the written files. *)
+Theorem C06_tx_markers_cover_payload : forall evs,
+  let s := xrun gen_xkernels xinit evs in
+  x_bare s = [] /\ (x_phase s = XOpen \/ x_phase s = XFlipped -> forall f, In f (x_payload s) -> In f (x_markers s)).
+Proof. exact tx_markers_cover_payload. Qed.
+Print Assumptions C06_tx_markers_cover_payload.
+
+(* ... for whatever kernels the code has, as long as they protect and the retry arm drops nothing. *)
+Theorem C06_tx_markers_cover_payload_kernels : forall k, kernels_ok k -> forall evs,
+  let s := xrun k xinit evs in
+  x_bare s = [] /\ (x_phase s = XOpen \/ x_phase s = XFlipped -> forall f, In f (x_payload s) -> In f (x_markers s)).
+Proof. exact tx_markers_cover_payload_k. Qed.
+Print Assumptions C06_tx_markers_cover_payload_kernels.
+
+(* The condition on the retry arm cannot be dropped: with ANY kernels whose retry arm drops markers, every file
+   adopted before a lost attempt is unmarked payload from the conflict on and is published unmarked -- between the
+   conflict and the flip nothing protects it from a collection run if it is older than the grace period (GCRace: an
+   unmarked, unreferenced, old file is an orphan; C06_unmarked_adoption_refuted is that run). *)
+Theorem C06_dropping_retry_refuted : forall k f, k_retry_drops k = true ->
+  let s := xrun k xinit [XAdopt f; XConflict; XCommit] in
+  x_phase s = XFlipped /\ In f (x_published s) /\ In f (x_bare s) /\ ~ In f (x_markers s).
+Proof. exact dropping_retry_refuted. Qed.
+Print Assumptions C06_dropping_retry_refuted.
+
+(* What a bare file costs, on the collector x transactions machine: with a transaction step that drops the marker of a
+   file it still publishes (Model/GCRaceDrop.v: `gstep` otherwise), a pre-built file ten hours old, adopted, whose
+   marker the lost attempt drops, is deleted by a collection run of 4 ms (grace period 1 h) between the conflict and
+   the retry's flip, and the committed table references a deleted file.  No marker was treated as abandoned. *)
+Theorem C06_dropped_marker_loses_file :
+  exists evs w, grun_strict_dropping (ginit []) evs = Some w
+    /\ g_swept w 0%nat = false /\ g_ref w 0%nat = true /\ g_present w 0%nat = false /\ g_deleted w = [0%nat]
+    /\ g_now w - g_start w < 3600000.
+Proof. exact dropped_marker_loses_file. Qed.
+Print Assumptions C06_dropped_marker_loses_file.
 
 (* The regenerated decision kernels, as the invariant uses them (for all inputs). *)
 Theorem C06_marker_kernel : forall now timeout mt,
@@ -110,4 +155,17 @@ Example C06_adoption_nonvacuous :
   grun_strict (ginit []) evs 0 = inl w
   /\ g_ref w 0%nat = true /\ g_present w 0%nat = true
   /\ gstep w (GDel 0%nat) = None /\ gstep w (TAdopt 1%nat) = None /\ g_mtime w 0%nat < g_cutoff w.
+Proof. vm_compute. repeat split; reflexivity. Qed.
+
+(* Non-vacuity of the ledger: a transaction writes file 0 and adopts the pre-built file 1; two commit attempts lose the
+   race (manifests 2,3 and 4,5), the third (6,7) goes through.  Every event is enabled; at the flip the transaction
+   holds the markers of 0, 1, 6, 7 (and still those of the lost attempts' manifests); nothing was ever bare. *)
+Example C06_ledger_nonvacuous :
+  let evs := [XWrite 0; XAdopt 1; XRefuse 9; XAttempt 2; XAttempt 3; XConflict; XAttempt 4; XAttempt 5; XConflict;
+              XAttempt 6; XAttempt 7; XCommit]%nat in
+  let s := xrun gen_xkernels xinit evs in
+  xrun_strict gen_xkernels xinit evs 0 = inl s
+  /\ x_phase s = XFlipped /\ x_lost s = 2%nat /\ x_published s = [1; 0; 7; 6]%nat /\ x_bare s = []
+  /\ x_markers s = [7; 6; 5; 4; 3; 2; 1; 0]%nat
+  /\ x_markers (xrun gen_xkernels s [XFinish]) = [].
 Proof. vm_compute. repeat split; reflexivity. Qed.
